@@ -1024,7 +1024,7 @@ def run(P, rep, tier):
                        'plus the header mapping: the macros of include/stdatomic.h are evaluated under interference schedules, untyped on a 64-bit object (R16.5) and with C types on objects of every integer width and signedness, where the compare-exchange builtin refreshes exactly sizeof(object) bytes of the expected-value object (R16.8). '
                        'float/double atomic objects are covered by R16.1 (rewrite) and R16.3/R16.4 (bit patterns moved between %xmm0 and the general register the instruction uses). '
                        'R16.8 evaluates every macro twice: with the object designated through a pointer to the _Atomic-qualified type (op= on *(obj) is then the indivisible rewrite of R16.1) and through a pointer to the unqualified type (op= is a plain load/modify/store there; only the builtins are indivisible). '
-                       'R16.9: every atomic_* typedef of C11 7.17.6 carries _Atomic on the paired direct type. R16.10: struct/union objects are either rejected by add_type or the instruction works on the bytes of the operands, not on the addresses aggregates are evaluated to. R16.12: a store to an atomic object of 1/2/4/8 bytes (scalar, struct, union) is one store instruction of the object width. R16.11: the qualifier survives type derivation - the type constructors, add_type on every lvalue shape, typeof / typedef names / pointer declarators (declspec and declarator interpreted on token sequences with an atomic type in scope), and no assignment clears is_atomic. R16.13/R16.15: the trees unary()/postfix()/to_assign() build for ++, -- and op= on an atomic object of every scalar type are run by a reference evaluator of the node language in which another thread overwrites the object before any access of this thread (finite set of schedules x boundary values): exactly one successful compare-exchange writes the object, it installs conv_T(h op k) for the value h it replaced, postfix forms yield h itself, the others the installed value, and the loop ends with the interference. R16.14: the bytes a bit-field store rewrites (layout of struct_decl on a catalogue of member sequences x store width of gen_expr) contain no byte of another memory location (C11 3.14) - a plain read-modify-write of a unit that also holds an _Atomic member undoes the indivisible updates of that member. Linearizability under arbitrary interleavings is a property of schedules and is decided only for the finite schedule set of R16.13/R16.15.')
+                       'R16.9: every atomic_* typedef of C11 7.17.6 carries _Atomic on the paired direct type. R16.10: struct/union objects are either rejected by add_type or the instruction works on the bytes of the operands, not on the addresses aggregates are evaluated to. R16.12: a store to an atomic object of 1/2/4/8 bytes (scalar, struct, union) is one store instruction of the object width. R16.11: the qualifier survives type derivation - the type constructors, add_type on every lvalue shape, typeof / typedef names / pointer declarators (declspec and declarator interpreted on token sequences with an atomic type in scope), and no assignment clears is_atomic. R16.13/R16.15: the trees unary()/postfix()/to_assign() build for ++, -- and op= on an atomic object of every scalar type are run by a reference evaluator of the node language in which another thread overwrites the object before any access of this thread (finite set of schedules x boundary values): exactly one successful compare-exchange writes the object, it installs conv_T(h op k) for the value h it replaced, postfix forms yield h itself, the others the installed value, and the loop ends with the interference. R16.14: the bytes a bit-field store rewrites (layout of struct_decl on a catalogue of member sequences x store width of gen_expr) contain no byte of another memory location (C11 3.14) - a plain read-modify-write of a unit that also holds an _Atomic member undoes the indivisible updates of that member. R16.16: the macros of include/stdatomic.h evaluate every operand exactly once per invocation (calls as arguments, counted by the mini evaluator over the interference schedules, so that retry loops run 0..4 times). Linearizability under arbitrary interleavings is a property of schedules and is decided only for the finite schedule set of R16.13/R16.15.')
     rep.assumptions += ['x86-64: `lock cmpxchg` and `xchg` with a memory operand are indivisible (Intel SDM vol. 3 ch. 8)', 'children satisfy the register convention (induction)']
     r163(cg, rep)
     r1610(P, cg, rep)
@@ -1043,6 +1043,13 @@ def run(P, rep, tier):
     r_atomic_builtin_operands(P, rep, 'R16.7')
     r1613(P, rep, tier)
     r1614(P, cg, rep)
+    r1616(P, rep)
+
+
+def r1616(P, rep):
+    from ..lib_c16_once import r_operands_once
+    rep.rule('R16.16', 'every generic function of include/stdatomic.h evaluates each of its operands exactly once per invocation (C11 7.1.4p1), whatever the number of retries of its compare-exchange loop: the expansion is run with counting calls as arguments on a shared object under interference schedules; operands of typeof / sizeof do not count; memory_order operands and the operand of atomic_is_lock_free at most once. An object operand evaluated again for the exchange (or per retry) makes the accesses of one operation go to different objects', floor=40)
+    r_operands_once(P, rep, 'R16.16')
 
 
 def r1614(P, cg, rep):
